@@ -264,3 +264,48 @@ Proof.
   - destruct (fold_left compare_step ps (f2, c2)). eexists; eexists; reflexivity.
   - eexists; eexists; reflexivity.
 Qed.
+
+(* anything short of a full verification leaves the time and the rehash / justsynced marks as they were *)
+Lemma unverified_never_refreshed lim c ds ps info now info' c' :
+  scrub_stripe lim c ds ps info now = Some (info', c') -> verified ds ps = false ->
+  info' = info \/ info' = info_set_bad info.
+Proof.
+  intros H Hv. destruct (books_honest_stripe _ _ _ _ _ _ _ _ H) as [_ [Hd [Hu _]]].
+  destruct (damaged ds ps) eqn:E; [right; apply Hd; reflexivity|left; apply Hu; [assumption|reflexivity]].
+Qed.
+
+(* a parity level that could not be read (any state but DONE), or a block of a file that could not be read *)
+Lemma unreadable_parity_not_verified ds ps :
+  existsb (fun t => negb (is_done (pt_state t))) ps = true -> verified ds ps = false.
+Proof.
+  intro H. unfold verified. apply existsb_exists in H. destruct H as [t [Hin Ht]].
+  assert (forallb p_ok ps = false) as ->; [|apply andb_false_r].
+  apply not_true_is_false. intro Hf. rewrite forallb_forall in Hf. specialize (Hf t Hin).
+  unfold p_ok in Hf. destruct (is_done (pt_state t)); [discriminate|discriminate].
+Qed.
+
+Lemma unreadable_data_not_verified ds ps :
+  existsb (fun t => d_file t && negb (is_done (dt_state t))) ds = true -> verified ds ps = false.
+Proof.
+  intro H. unfold verified. apply existsb_exists in H. destruct H as [t [Hin Ht]].
+  assert (forallb d_ok ds = false) as ->; [|reflexivity].
+  apply not_true_is_false. intro Hf. rewrite forallb_forall in Hf. specialize (Hf t Hin).
+  unfold d_ok in Hf. destruct (d_file t); [|discriminate]. destruct (is_done (dt_state t)); discriminate.
+Qed.
+
+Lemma unreadable_never_refreshed lim c ds ps info now info' c' :
+  scrub_stripe lim c ds ps info now = Some (info', c') ->
+  existsb (fun t => negb (is_done (pt_state t))) ps = true \/
+  existsb (fun t => d_file t && negb (is_done (dt_state t))) ds = true ->
+  (info' = info \/ info' = info_set_bad info) /\
+  info_get_time info' = info_get_time info /\ info_get_rehash info' = info_get_rehash info /\
+  info_get_justsynced info' = info_get_justsynced info /\ (info_get_bad info = true -> info_get_bad info' = true).
+Proof.
+  intros H Hu.
+  assert (verified ds ps = false) as Hv
+    by (destruct Hu; [apply unreadable_parity_not_verified|apply unreadable_data_not_verified]; assumption).
+  destruct (unverified_never_refreshed _ _ _ _ _ _ _ _ H Hv) as [->| ->].
+  - split; [left; reflexivity|]. repeat split; auto.
+  - split; [right; reflexivity|]. split; [apply set_bad_time|]. split; [apply set_bad_rehash|].
+    split; [apply set_bad_justsynced|]. intros _. apply set_bad_bad.
+Qed.
